@@ -977,6 +977,31 @@ func (c *c17Run) directed() {
 	c.replayOld("directed-drain-replay", d)
 	c.replayOld("directed-drain-replay", d)
 	c.endBlock()
+	// creation at an address that already holds OLT (native SEND to CreateAddress(sender, nonce)): the
+	// contract holds exactly the native amount plus the transferred value, natively and in the EVM
+	c.beginBlock()
+	fut := c.futureContract(e2)
+	c.deliverSend("directed-prefund-native", "native send to a future contract address", u0, fut, "1000", 1000000)
+	c.deliverSend("directed-prefund-native", "native send to a future contract address", u1, fut, "2345", 1000000)
+	dl("directed-prefund-create", e2, nil, c.stNonce(e2.Addr), zero, 200000, c17Deployer(c17RtStop), 0)
+	dl("directed-prefund-call", e0, &fut, c.stNonce(e0.Addr), big.NewInt(9), 100000, nil, 0)
+	fut2 := c.futureContract(e2)
+	c.deliverSend("directed-prefund-native", "native send to a future contract address", u0, fut2, "777000000000", 1000000)
+	c.endBlock()
+	c.beginBlock()
+	dl("directed-prefund-create-with-value", e2, nil, c.stNonce(e2.Addr), big.NewInt(5000), 200000, c17Deployer(c17RtToggle), 0)
+	fut3 := c.futureContract(e2)
+	c.deliverSend("directed-prefund-native", "native send to a future contract address", u0, fut3, "99", 1000000)
+	dl("directed-prefund-create-ctor-reverts", e2, nil, c.stNonce(e2.Addr), big.NewInt(12), 200000, c17InitRevert, 0)
+	dl("directed-prefund-transfer-to-unused", e0, &fut3, c.stNonce(e0.Addr), big.NewInt(1), 21000, nil, 0)
+	fut4 := c.futureContract(e2)
+	c.deliverSend("directed-prefund-native", "native send to a future contract address", u1, fut4, "5", 1000000)
+	dl("directed-prefund-create-with-value", e2, nil, c.stNonce(e2.Addr), big.NewInt(7), 200000, c17InitStore, 0)
+	fut5 := c.futureContract(e2)
+	c.deliverSend("directed-prefund-native", "native send to a future contract address", u1, fut5, "4000", 1000000)
+	dl("directed-prefund-create-suicide", e2, nil, c.stNonce(e2.Addr), big.NewInt(3), 200000, c17Deployer(c17RtSuicide), 0)
+	dl("directed-prefund-selfdestruct", e1, &fut5, c.stNonce(e1.Addr), big.NewInt(2), 100000, nil, 0)
+	c.endBlock()
 	// the same three steps split over blocks (control)
 	c.beginBlock()
 	dl("directed-seq-precheck-fail", e3, &f0, c.stNonce(a3)+1, big.NewInt(9), 21000, nil, 0)
@@ -1044,6 +1069,52 @@ func (c *c17Run) replayOld(class string, A c17EthKey) {
 		callee = c.contractAt(*to)
 	}
 	c.deliverOLVM(class, "old transaction of a drained and re-funded account", A, A.Addr, to, e.Nonce, value, price, e.Gas, data, c.chain, c.chain, strconv.FormatUint(e.Nonce, 10), e.TxType+1+int64(c.r.Intn(100000)), callee, nil)
+}
+
+func (c *c17Run) futureContract(A c17EthKey) keys.Address {
+	return keys.Address(ethcrypto.CreateAddress(ethcmn.BytesToAddress(A.Addr), c.stNonce(A.Addr)).Bytes())
+}
+
+// genPrefundedCreate: native SENDs to the address at which an eth key's next contract will be
+// created, then the creation (with / without value; successful, reverting, self-destructing
+// constructor results), then traffic to the new contract.  The contract must hold exactly
+// what was sent natively plus the transferred value, natively and through the EVM.
+func (c *c17Run) genPrefundedCreate() {
+	r := c.r
+	A := c.ek[r.Intn(4)]
+	u := c.w.Users[r.Intn(len(c.w.Users))]
+	fut := c.futureContract(A)
+	for i, k := 0, 1+r.Intn(2); i < k; i++ {
+		amount := []string{"1", "1000", strconv.Itoa(1 + r.Intn(1000000000)), "5000000000000000000"}[r.Intn(4)]
+		c.deliverSend("prefund-native", "native send to a future contract address", u, fut, amount, 1000000)
+	}
+	if r.Intn(3) == 0 {
+		c.endBlock()
+		c.beginBlock()
+	}
+	if r.Intn(8) == 0 { // control: another transaction first, the contract lands elsewhere
+		n := c.stNonce(A.Addr)
+		f := c.fresh[r.Intn(len(c.fresh))]
+		c.deliverOLVM("prefund-control-other-first", "nonce moves on before the creation", A, A.Addr, &f, n, big.NewInt(1), c17Gwei, 21000, nil, c.chain, c.chain, strconv.FormatUint(n, 10), 0, nil, nil)
+	}
+	inits := []struct {
+		k string
+		b []byte
+	}{{"stop", c17Deployer(c17RtStop)}, {"store", c17InitStore}, {"toggle", c17Deployer(c17RtToggle)}, {"suicide", c17Deployer(c17RtSuicide)},
+		{"forward", c17Deployer(c17RtForward(c.fresh[0]))}, {"ctor-revert", c17InitRevert}, {"ctor-invalid", []byte{0xfe}}, {"stop", c17Deployer(c17RtStop)}}
+	in := inits[r.Intn(len(inits))]
+	value := big.NewInt(0)
+	if r.Intn(2) == 0 {
+		value = big.NewInt(int64(1 + r.Intn(100000)))
+	}
+	gas := []int64{200000, 200000, 1000000, 60000}[r.Intn(4)]
+	n := c.stNonce(A.Addr)
+	c.deliverOLVM("prefund-create|"+in.k, "creation at a pre-funded address", A, A.Addr, nil, n, value, c17Gwei, gas, in.b, c.chain, c.chain, strconv.FormatUint(n, 10), 0, nil, nil)
+	if k := c.contractAt(fut); k != nil && r.Intn(2) == 0 { // traffic to the new contract
+		B := c.ek[r.Intn(4)]
+		bn := c.stNonce(B.Addr)
+		c.deliverOLVM("prefund-call|"+k.Kind, "call of a contract created at a pre-funded address", B, B.Addr, &fut, bn, big.NewInt(int64(r.Intn(3)*7)), c17Gwei, 100000, nil, c.chain, c.chain, strconv.FormatUint(bn, 10), 0, k, nil)
+	}
 }
 
 // genDrainSeq: fund an empty eth account natively, let it spend its whole balance (exactly 0 left,
@@ -1244,17 +1315,19 @@ func c17WriteCases(path string, steps []c17Step) {
 }
 
 type c17Report struct {
-	Files         []string
-	Steps         int
-	Distinct      int
-	Classes       map[string]int
-	Outcomes      map[string]int
-	Checks        map[string]int
-	ViewsRead     int
-	SenderZero    int // executed OLVM transactions that left the sender's balance at exactly 0
-	ZeroToDrained int // executed zero-value transfers to an account with balance 0 and nonce > 0
-	Contracts     int
-	Samples       []c17Step
+	Files                 []string
+	Steps                 int
+	Distinct              int
+	Classes               map[string]int
+	Outcomes              map[string]int
+	Checks                map[string]int
+	ViewsRead             int
+	SenderZero            int // executed OLVM transactions that left the sender's balance at exactly 0
+	ZeroToDrained         int // executed zero-value transfers to an account with balance 0 and nonce > 0
+	PrefundedCreate       int // successful creations at an address holding OLT before the transaction
+	PrefundedCreateFailed int // creations at such an address whose constructor failed
+	Contracts             int
+	Samples               []c17Step
 }
 
 func c17Main(args []string) int {
@@ -1291,9 +1364,12 @@ func c17Main(args []string) int {
 			case 2:
 				c.genStaleSeq()
 			case 3:
-				if c.r.Intn(2) == 0 {
+				switch c.r.Intn(3) {
+				case 0:
 					c.genDrainSeq()
-				} else {
+				case 1:
+					c.genPrefundedCreate()
+				default:
 					c.genStep()
 				}
 			default:
@@ -1309,6 +1385,13 @@ func c17Main(args []string) int {
 		if s.Kind == "olvm" && s.Code == 0 && !s.Dup {
 			if c17Lookup(s.Post.Bal, s.From) == "0" {
 				rep.SenderZero++
+			}
+			if s.To < 0 && c17Lookup(s.Pre.Bal, s.Created) != "0" {
+				if s.Failed {
+					rep.PrefundedCreateFailed++
+				} else {
+					rep.PrefundedCreate++
+				}
 			}
 			if s.To >= 0 && s.To != s.From && s.Value == "0" && c17Lookup(s.Pre.Bal, s.To) == "0" && c17Lookup(s.Pre.Non, s.To) != "0" {
 				rep.ZeroToDrained++
